@@ -324,7 +324,7 @@ def applyOpBody (cfg : Cfg) (d : Dialect) (s : MState) (operator operandList : V
         let s ← { s with ctr := c }.push v
         pure (cost, s)
 
-theorem applyOp_eq (cfg : Cfg) (d : Dialect) (s : MState) (currentCost maxCost : Nat) :
+theorem applyOp_eq_repr (cfg : Cfg) (d : Dialect) (s : MState) (currentCost maxCost : Nat) :
     applyOp cfg d s currentCost maxCost = (do
       let (operandList, s) ← s.pop
       let (operator, s) ← s.pop
@@ -404,7 +404,7 @@ theorem applyOpBody_rel (cfg : Cfg) {d : Dialect} (hd : DialectRepr d) {t t' : M
 theorem applyOp_rel (cfg : Cfg) {d : Dialect} (hd : DialectRepr d) {s s' : MState} (h : StateEraseEq s s')
     (currentCost maxCost : Nat) :
     MR StepRel (applyOp cfg d s currentCost maxCost) (applyOp cfg d s' currentCost maxCost) := by
-  rw [applyOp_eq, applyOp_eq]
+  rw [applyOp_eq_repr, applyOp_eq_repr]
   refine (pop_rel h).bind ?_
   intro ⟨ol, s1⟩ ⟨ol', s1'⟩ ⟨hol, hs1⟩
   refine (pop_rel hs1).bind ?_
@@ -423,7 +423,7 @@ theorem applyOp_rel (cfg : Cfg) {d : Dialect} (hd : DialectRepr d) {s s' : MStat
 
 /-! ### `exit_guard`, the loop, `run_program` -/
 
-theorem exitGuard_rel {s s' : MState} (h : StateEraseEq s s') (currentCost : Nat) :
+theorem exitGuard_rel_repr {s s' : MState} (h : StateEraseEq s s') (currentCost : Nat) :
     MR StepRel (exitGuard s currentCost) (exitGuard s' currentCost) := by
   unfold exitGuard
   rw [h.guards]
@@ -450,7 +450,7 @@ theorem stepOp_rel (cfg : Cfg) {d : Dialect} (hd : DialectRepr d) {s s' : MState
     MR StepRel (stepOp cfg d s op cost em) (stepOp cfg d s' op cost em) := by
   cases op with
   | Apply => exact applyOp_rel cfg hd h _ _
-  | ExitGuard => exact exitGuard_rel h _
+  | ExitGuard => exact exitGuard_rel_repr h _
   | Cons => exact consOp_rel h
   | SwapEval => exact swapEvalOp_rel cfg hd h
   | RestoreAllocator =>
@@ -824,7 +824,7 @@ theorem stepOp_guard (cfg : Cfg) (d : Dialect) (G : Val → Val → Bool) (s : M
   | SwapEval =>
     simp only [stepOp, swapEvalOp, evalPair_guard]; exact .inr trivial
   | Apply =>
-    simp only [stepOp, applyOp_eq, bind, Except.bind]
+    simp only [stepOp, applyOp_eq_repr, bind, Except.bind]
     cases s.pop with
     | error e => exact .inr rfl
     | ok r1 =>
